@@ -9,6 +9,7 @@
 //    unevaluated long-double sum s + e (TwoSum, error free) and compared exactly against k +- 2^(ovh-50), k in
 //    {-1,0,1} (the three representatives cover out in [-1/2,1/2], t in (-1,1)): torus distance, no rounding allowance.
 // Non-trivial: the vector contains a value with |x/d| >= bound/4 or within 2^-20 of a half-integer (of the rounding grid).
+#include <algorithm>
 #include <cmath>
 #include <cstring>
 
@@ -304,13 +305,18 @@ std::vector<Sub> vh_subs() {
         default: reim_to_znx64_avx2_bnd63_fma(p, o, x);
       }
       delete_reim_to_znx64_precomp(p);
+      bool tie_lo = false, tie_hi = false;  // evidence that exact ties occur and that both neighbours are accepted
       for (uint64_t i = 0; i < n; ++i) {
         double z = std::ldexp(x[i], -j);  // x/d exactly
         int64_t lo, hi;
-        if (!nearest_ok(z, o[i], &lo, &hi))
+        bool ok = nearest_ok(z, o[i], &lo, &hi);
+        if (ok && lo != hi) (std::llabs(o[i]) == std::min(std::llabs(lo), std::llabs(hi)) ? tie_lo : tie_hi) = true;
+        if (!ok)
           return c.failf("reim_to_znx64[%s] m=%llu divisor=2^%d log2bound=%d: out[%llu]=%lld for x=%a, x/d=%a (%.20g): not within 1/2 (expected %lld%s%lld)",
                          vn[variant], (ull)m, j, L, (ull)i, (ll)o[i], x[i], z, z, (ll)lo, lo == hi ? " = " : " or ", (ll)hi);
       }
+      if (tie_lo) c.cls("to_znx64:tie->towards-zero");
+      if (tie_hi) c.cls("to_znx64:tie->away-from-zero");
       io.intact(c, "reim_to_znx64");
     };
     subs.push_back(s);
